@@ -91,6 +91,20 @@ CHECKS['C18'] = dict(
     technique="Coq proof over a control skeleton regenerated from the source (guard soundness by mutual induction) + subprocess oracle",
     design="6.C18")
 
+CHECKS['C17'] = dict(
+    text="Gen/ExcFlow.v (raise/catch skeleton of every function of the parser side, regenerated from /repo on every run by a fail-closed "
+         "Python-ast translator) + a Coq may-analysis of exception flow (propagation to a fixpoint along the name-based call graph, "
+         "handlers by class, stamped = CompilationError built with the line). Theorem C17_lookup_failures_are_stamped (finite domain: "
+         "all transformer callbacks x all escapes): an exception leaves a callback without the line of its sentence only along the rows of "
+         "the hand-maintained list Api/ExcFlowAccepted.v (each row tagged imprecision / internal / not a lookup fault / known finding); "
+         "C17_accepted_rows_are_live forbids stale rows; C17_core_lookups_stamped names the stamped lookups. Dynamic part: every fault "
+         "class of the property injected as one sentence into wide-generator specifications at a random boundary with 0-3 padding lines: "
+         "compilation must fail citing exactly that line and the offending name.",
+    note="Trusted: Coq kernel (vm_compute over the finite skeleton); the ast translator and its name-based call resolution (over-approximation); "
+         "Lark's VisitError wrapping and meta.line. The analysis result is a statement about the skeleton, not a semantics proof of Python.",
+    technique="Coq-checked static exception-flow analysis over a skeleton regenerated from the source + fault-injection oracle",
+    design="6.C17")
+
 NOT_YET = {}
 
 
